@@ -314,6 +314,19 @@ def run(ctx):
         # only -- 6.4 million transitions are not replayed
         r = vlib.tlc(SPECDIR, "CowVariantImpl", "CowVariantImpl_big.cfg", workers=8, timeout=2400, xmx="6g")
         ctx.add_tlc("CowVariantImpl:big", r)
+    # integers beyond TLC's 32 bits: type, decimal text, 64-bit conversions and copy-equality of boundary and random values
+    def wide_line(kind, v):
+        v &= (1 << 64) - 1
+        return "wide %s %d %d %d %d" % (kind, v & 0xffff, (v >> 16) & 0xffff, (v >> 32) & 0xffff, (v >> 48) & 0xffff)
+    wl = []
+    edges = [0, 1, 9, 10, 2 ** 31 - 1, 2 ** 31, 2 ** 32 - 1, 2 ** 32, 2 ** 53, 2 ** 53 + 1, 10 ** 18, 2 ** 63 - 1, 2 ** 63, 2 ** 63 + 1, 10 ** 19, 2 ** 64 - 1]
+    for v in edges:
+        wl += [wide_line("u64", v), wide_line("i64", v), wide_line("i64", -v), wide_line("u32", v & 0xffffffff), wide_line("i32", v & 0xffffffff)]
+    for _ in range(60 if ctx.quick else 3000):
+        v = ctx.rng.getrandbits(ctx.rng.choice([8, 31, 32, 33, 40, 62, 63, 64]))
+        wl.append(wide_line(ctx.rng.choice(["u64", "i64", "u64", "i64", "u32", "i32"]), v))
+    vlib.check_executions(ctx, binary, [wl[k:k + 50] for k in range(0, len(wl), 50)], "wide", SPECDIR, "VariantWideTrace", "VariantWideTrace.cfg",
+                          lambda ops, step: "Variant.wide:" + (ops[step - 1].split()[1] if 0 < step <= len(ops) else "?"))
     # 3. direction B: random histories over three real Variant variables, validated by TLC against VariantValues
     nexec, nops = (500, 40) if ctx.quick else (6000, 60)
     execs = [rand_exec(ctx.rng, nops) for _ in range(nexec)]
@@ -339,5 +352,9 @@ def run(ctx):
 
 def replay(ctx, path):
     binary = build()
-    check_executions(ctx, binary, vlib.read_ops_file(path), "replay")
+    execs = vlib.read_ops_file(path)
+    if execs and execs[0] and all(o.startswith("wide") for o in execs[0]):
+        vlib.check_executions(ctx, binary, execs, "replay", SPECDIR, "VariantWideTrace", "VariantWideTrace.cfg", lambda ops, step: "Variant.wide")
+    else:
+        check_executions(ctx, binary, execs, "replay")
     return vlib.finish(ctx, "model_checking", "replay of one op sequence")
